@@ -22,17 +22,17 @@ func vfH_C17_noninterference(tier int) {
 		kind = 1 + vfChoice(len(vfStmtGens)-1)
 	}
 	op := vfChoice(len(c17Ops))
-	budget := tier
+	budget, subs := tier, tier
 	switch op {
 	case 0, 6, 10, 11:
-		budget = 1 + tier // the operations that traverse the whole statement see every variant of it
+		budget, subs = 1, 1+tier // the operations that traverse the whole statement see every variant of it
 	case 2:
-		budget = 2 * tier
+		budget, subs = tier, tier
 	}
 	// the parsing operations see symbolic keyword spelling and whitespace, and run first on fresh package state
 	// (no sequential warm-up parse that could hide a lazily initialised or memoising global);
 	// for the operations on a shared AST the spelling of the text it came from is irrelevant
-	g := &vfGen{tier: tier, budget: budget, plainKW: op > 1, plainWS: op > 1}
+	g := &vfGen{tier: tier, budget: budget, sub: subs, plainKW: op > 1, plainWS: op > 1}
 	// wildcard expansion: which stores happen does not depend on the letters of the names (quick tier)
 	vfConcreteHoles = op == 11 && tier == 0
 	vfStmtGens[kind].gen(g)
